@@ -1,0 +1,53 @@
+//go:build verif
+
+// Contracts for govc (see /verif/DESIGN.md). Comment-only file.
+
+package index
+
+//@ property C16
+//@ pragma strings ordered
+
+// ixLook/btLook name what the lookups of one layer / of the stored btree return (uninterpreted:
+// the layer contents are covered by C11, the btree is not under contract)
+//@ spec ixLook(ib *ixbuf.ixbuf, key string) uint64
+//@ spec btLook(bt *btree.btree, key string) uint64
+// a layer is a well-formed index buffer (the precondition of its Lookup, see C11)
+//@ spec ixWf(ib *ixbuf.ixbuf) bool = wfChunks(ib) && (ib.size == 0 <==> len(ib.chunks) == 0)
+// what an entry found in a layer means: a tombstone hides the key, otherwise the offset without the update flag
+//@ spec entryVal(o uint64) uint64 = (o & 9223372036854775808) != 0 ? 0 : o - (o & 4611686018427387904)
+// the layers above index i (and the transaction's own mutable layer) do not mention the key
+//@ spec noneAbove(ov *Overlay, i int, key string) bool = (ov.mut == nil || ixLook(ov.mut, key) == 0) && forall j :: i < j && j < len(ov.layers) ==> ixLook(ov.layers[j], key) == 0
+
+// Lookup: the newest layer that mentions the key decides (mutable layer first, then the committed
+// layers from the most recent down to the base), and only if no layer mentions it the stored btree
+//@ func (ov *Overlay) Lookup(key) (r)
+//@   requires ov != nil && (ov.mut != nil ==> ixWf(ov.mut)) && forall k :: 0 <= k && k < len(ov.layers) ==> ov.layers[k] != nil && ixWf(ov.layers[k])
+//@   ensures! own_layer: ov.mut != nil && ixLook(ov.mut, key) != 0 ==> r == entryVal(ixLook(ov.mut, key))
+//@   ensures! newest_layer: forall i :: 0 <= i && i < len(ov.layers) && noneAbove(ov, i, key) && ixLook(ov.layers[i], key) != 0 ==> r == entryVal(ixLook(ov.layers[i], key))
+//@   ensures! base: noneAbove(ov, -1, key) ==> r == btLook(ov.bt, key)
+//@   loop 0 invariant -1 <= i && i < len(ov.layers) && noneAbove(ov, i, key)
+//@   loop 0 decreases i + 1
+
+// ---- the layer list: commit appends exactly one layer, merge replaces a prefix by its merge result,
+// ---- persist replaces the base by an empty one; nothing else changes and the inputs are not mutated
+//@ func (ov *Overlay) UpdateWith(latest)
+//@   requires ov != nil && latest != nil && ov != latest
+//@   modifies ov.bt, ov.layers, ov.mut
+//@   panics_if len(latest.layers) < 1
+//@   ensures! appended: len(ov.layers) == len(latest.layers) + 1 && fresh(ov.layers) && ov.layers[len(latest.layers)] == old(ov.mut) && forall k :: 0 <= k && k < len(latest.layers) ==> ov.layers[k] == latest.layers[k]
+//@   ensures! base: ov.bt == latest.bt && ov.mut == nil
+//@ func (ov *Overlay) WithMerged(mr, nmerged) (r)
+//@   requires ov != nil && 0 <= nmerged && nmerged < len(ov.layers)
+//@   ensures! replaced: r != nil && fresh(r) && fresh(r.layers) && r.bt == ov.bt && r.mut == nil && len(r.layers) == len(ov.layers) - nmerged && r.layers[0] == mr
+//@   ensures! rest_kept_in_order: forall k :: 1 <= k && k < len(r.layers) ==> r.layers[k] == ov.layers[k + nmerged]
+//@ func (ov *Overlay) WithSaved(bt) (r)
+//@   requires ov != nil && len(ov.layers) >= 1
+//@   ensures! rebased: r != nil && fresh(r) && fresh(r.layers) && r.bt == bt && r.mut == nil && len(r.layers) == len(ov.layers) && r.layers[0] != nil && fresh(r.layers[0])
+//@   ensures! rest_kept_in_order: forall k :: 1 <= k && k < len(r.layers) ==> r.layers[k] == ov.layers[k]
+//@ func (ov *Overlay) Mutable() (r)
+//@   requires ov != nil
+//@   panics_if !(ov.mut == nil && len(ov.layers) > 0 && ov.layers[0] != nil)
+//@   ensures! r != nil && fresh(r) && r.bt == ov.bt && r.layers == ov.layers && r.mut != nil && fresh(r.mut)
+//@ func (ov *Overlay) Nlayers() (r)
+//@   requires ov != nil
+//@   ensures! r == len(ov.layers)
